@@ -157,6 +157,7 @@ def effective(cli: dict, auto: bool, config: dict | None) -> dict:
 
 class C16(Prop):
     id = "C16"
+    once_kinds = ("search", "keys")
     rule = ("cases: every one of the 13 settings (include is config-only) x {flag passed with a non-default value, passed with its default value, not passed; spelled canonically, as --opt=value, as an unambiguous prefix, as -wN} x "
             "{config sets it, does not} x {--auto, not} with a random config kind (.flowmark.toml / flowmark.toml / pyproject.toml), "
             "spelling (flat / sectioned, kebab / snake) and location (cwd / parent / grandparent); all ordered combinations of config "
